@@ -85,7 +85,7 @@ class Node(object):
         self.regions = []         # list of lists of Node
 
     def canon(self):
-        regs = sorted(tuple(sorted(n.canon() for n in r)) for r in self.regions if r)
+        regs = sorted((tuple(sorted((n.canon() for n in r), key=repr)) for r in self.regions if r), key=repr)
         return (self.name, self.label, self.final, self.cls, self.block, self.init, tuple(regs))
 
 
@@ -98,8 +98,8 @@ class Parsed(object):
         self.top_regions = 1
 
     def canon(self):
-        return (tuple(sorted(n.canon() for n in self.nodes)),
-                tuple(sorted((s, d, tuple(sorted(ls))) for s, d, ls in self.edges)), self.root_init)
+        return (tuple(sorted((n.canon() for n in self.nodes), key=repr)),
+                tuple(sorted(((s, d, tuple(sorted(ls, key=repr))) for s, d, ls in self.edges), key=repr)), self.root_init)
 
 
 STYLES = {'default': 0, 'active': 1, 'previous': 2}
@@ -622,17 +622,17 @@ def decode_diagram(ans):
         init = r.opt(r.nats)
         par = bool(r.nat())
         kids = r.lst(node)
-        regs = [(k,) for k in kids] if par else ([tuple(sorted(kids))] if kids else [])
-        return (name, label, final, cls, block, init, tuple(sorted(regs)))
+        regs = [(k,) for k in kids] if par else ([tuple(sorted(kids, key=repr))] if kids else [])
+        return (name, label, final, cls, block, init, tuple(sorted(regs, key=repr)))
 
     def label():
         return (r.nats(), bool(r.nat()), r.nats(), r.nats())
 
     def edge():
-        return (r.nats(), r.nats(), tuple(sorted(r.lst(label))))
+        return (r.nats(), r.nats(), tuple(sorted(r.lst(label), key=repr)))
 
-    nodes = tuple(sorted(r.lst(node)))
-    edges = tuple(sorted(r.lst(edge)))
+    nodes = tuple(sorted(r.lst(node), key=repr))
+    edges = tuple(sorted(r.lst(edge), key=repr))
     root = r.opt(r.nats)
     if r.i != len(r.n):
         raise common.MachineryError('trailing tokens in driver answer')
@@ -829,8 +829,12 @@ def oracle_roi(run, mi, d):
         fails.append(('roi-active-missing', {'missing': miss}, 'C16.roi.active'))
     rows = [r for r in run.table() if (r['pre'] + r['src']) in cur]
     exp = expected_labels(rows, run.case['opts']['show_conditions'])
-    fails += [(('roi-' + w), det, sig.replace('C16.edges', 'C16.roi.edges'))
-              for w, det, sig in oracle_edges(run, d, exp, exact=False)]
+    ph = set(name_of(p) for p in run.phantom)
+    for w, det, sig in oracle_edges(run, d, exp, exact=False):
+        sig = sig.replace('C16.edges', 'C16.roi.edges')
+        if w == 'edge-label' and det['edge'][0] in ph and all(x in det['labels'] for x in det['expected']):
+            sig = SIG_PHANTOM       # extra labels from the stale markup of a compound add_states (open finding)
+        fails.append(('roi-' + w, det, sig))
     for (s, t) in exp:
         if t in idx and t not in declared:
             fails.append(('roi-target-missing', {'edge': [name_of(s), name_of(t)]}, 'C16.roi.target'))
